@@ -29,6 +29,7 @@ PREFIXES = [
     # refused calls at every position of them)
     ('own complaint answered, run to the end', [call('Start'), call('HB', 0, 'vec'), call('NextTimeout'), call('HB', 0, 'answer'), call('NextTimeout'), call('End')]),
     ('complaint of another pending, run to the end', [call('Start'), call('HB', 0, 'vec'), call('HP', 0, 'share'), call('HB', 2, 'complaint'), call('NextTimeout'), call('NextTimeout'), call('End')]),
+    ('every dealer force-disqualified, the own instance included', [call('Start'), call('FD', 0), call('FD', 1), call('FD', 2)]),
     ('dealt, ended', [call('Start'), call('HB', 0, 'vec'), call('HP', 0, 'share'), call('NextTimeout'), call('NextTimeout'), call('End')]),
 ]
 
